@@ -12,165 +12,102 @@ Definition show_fres (r : fres) : string :=
   end.
 Definition check (rs : list rune) : string := digest (show_fres (format_res rs)).
 Definition full (rs : list rune) : string := show_fres (format_res rs).
-Eval vm_compute in ("<<<M1492>>>" ++ check (runes_of_ascii "
-// top
-
-options  
-  // c0
-      {  // c1a
-	// c1b
-
-LittleEndian 
-// c2
-  =	// c3a
-    // c3b
-	false 
-
-// c4
-; ArrayPrefixLenType=  // c7a
-
-	// c7b
-u8  
-  // c8
-;// c9
-FixedStringPadFromLeft	// c10a
-
-	// c10b
-	=// c11
-
-  true 
-;	// c13
-    FixedStringPadChar 
-        // c14
-
-	=
-'0' 	 // c16
-      ;
-
-    // c17
-		}  // c18
-	packet 
-    // c19
-  Heartbeat{ 
-	// c21
-	  string	lastPx
-	, uint8  // c25
-  	Qty
-, 
-    // c27
-	i64 	 // c28a
-    // c28b
-    Acct 
-
-    // c29
-	  ,  
-      // c30
-    char[// c31
-
-4
-
-    ]  // c33
-	Ref	// c34
-		, 	 // c35
-  	} packet // c37
-Fill  // c38
-      {	// c39
-
-uint8 	 // c40a
-  	// c40b
-	Ref 	 // c41
-    ,	Heartbeat 	 // c43
-  , 	 // c44a
-      // c44b
-	f32  // c45
-  OrderId, // c47
-		repeat	f32 	 // c49
-x 
-      // c50
-,// c51a
-  // c51b
-}	root
-packet Order
-// c55
-    {// c56a
-      // c56b
-      zchar[
-    // c57
-  2 // c58
-]// c59a
-
-// c59b
-	OrderId ,  
-      // c61
-	zchar[ // c62a
-
-// c62b
-2 ] 
-    // c64
-    Acct 
-// c65
+Eval vm_compute in ("<<<M317>>>" ++ check (runes_of_ascii "MetaData Logon
+    {
+    char[]u8x , matchKey pack,
+u8 int ``, char[ 007
+    ]
+msg_type ,
+BodyLength o	,string_ crc  `a\`, } options	{
+    //x
+    trueish = int16 Packet
+    = char MetaDataX=
+char[
+//
+// trailing space 
+255 ] // a // b
+;}	root
+    //
+    packet a1 // packet A { u8 x, }
+{ } root packet // c
+MetaDataX{
+@lengthOf(_x)
+repeat
+Logon{// " ++ [128512]%N ++ runes_of_ascii " emoji
+o
+a1 , uint64
+    u128 ,  } ,zchar[007] chars
+    `line1
+line2` ,	repeat Header u128`doc`, // " ++ [128512]%N ++ runes_of_ascii " emoji
+@calculatedFrom(""1"")int
+trueish
+, char[0123456789
+    ]
+uint8x,
+i8 int	@lengthOf( msg_type )`line1
+line2`
 ,
-// c66
-	zchar[	// c67
-	1  ] // c69
-Note // c70a
-	// c70b
-  ,
-    // c71
-  zchar[ 
-        // c72
-	  9 	 // c73
-] Qty // c75a
-	  // c75b
-
-  , // c76a
-    // c76b
-    string price// c78
-  , // c79
-	string // c80a
-
-// c80b
-  tag7 
-	// c81
-, 	 // c82a
-	// c82b
-u32 
-
-    // c83
-
-	x
-    // c84
-  ,  // c85a
-	// c85b
-match  // c86
-	  x as 	 // c88
-	Body  // c89
-
-{  // c90
-123  // c91
-  :  // c92a
-    	// c92b
-Fill , 	 // c94a
-	// c94b
-112 // c95a
-	// c95b
-  :// c96a
-// c96b
-  Heartbeat
-	, 	 // c98
-  } // c99
-  ,	// c100
-  u32 seqNo
-    // c102
-	@calculatedFrom( 	 // c103
-	  ""CRC32"" 	 // c104
-    )  
-      // c105
-
-  ,
-    // c106
-    }  // c107
-")).
+    //x
+    @rightPad (
+) repeat f64 Z9_, metadata{ falsey @calculatedFrom(
+""abc""
+) , }, options1 @calculatedFrom( ""\n"" ) ,@calculatedFrom(	""\n"" )  match metadata
+    as Header {[
+    """" ,  ""1"" ] :	Foo //
+, [  ""\n""
+, 10
+,
+// " ++ [27880; 37322]%N ++ runes_of_ascii "
+// c
+""{,}"" ]
+: Logon
+,
+[
+    """"] :
+len
+, ""\n""  :// trailing space 
+msg_type , [ // c
+00 ]
+    : trueish , 10 : u8x, }
+    ,
+    } // " ++ [27880; 37322]%N ++ runes_of_ascii "
+root
+packet
+    BodyLength
+    { char[42
+] body  @calculatedFrom(
+    ""{,}"" ) `tab	here` // trailing space 
+,
+i32
+stringy  @calculatedFrom( """ ++ [28040; 24687]%N ++ runes_of_ascii """ ),  @tag(  0123456789	)
+@rightPad ( )@tag( 00 )  i16 a1 @lengthOf( pack// a // b
+) ,
+    @tag( 10
+)
+@leftPad ('\x00' ) // `tick` ""quote"" 'q'
+@calculatedFrom( ""a\""b"" ) repeat char[] // c
+stringy `
+`	, chars `say ""hi""`,
+@lengthOf(  a1 ) @leftPad( '0'  )
+    match Z9_
+as Header { 00
+    //	t
+    : As ,
+} // " ++ [27880; 37322]%N ++ runes_of_ascii "
+, o @calculatedFrom( """ ++ [128512]%N ++ runes_of_ascii """
+    )
+, @leftPad //	t
+(	)As// trailing space 
+@calculatedFrom( ""// no comment"") ,
+match x_y_z  as
+    BodyLength {
+""x y"" // `tick` ""quote"" 'q'
+:BodyLength
+, """ ++ [28040; 24687]%N ++ runes_of_ascii """  : packetx  , 0 :
+    Header ,
+    ""x y"" : matchKey
+    //	t
+    ,}, } // trailing space ")).
 Eval vm_compute in ("<<<M53>>>" ++ check (runes_of_ascii "root
 packet u {
     char[007 ]x_y_z
@@ -246,7 +183,7 @@ a1 A,
     x Header ,
     }
 ")).
-Eval vm_compute in ("<<<M1854>>>" ++ check (runes_of_ascii "root packet metadata {
+Eval vm_compute in ("<<<M1853>>>" ++ check (runes_of_ascii "root packet metadata {
     @lengthOf(options1)
     int32 zchar @calculatedFrom(""// no comment"") `
     `,
@@ -298,67 +235,93 @@ MetaData Logon {
 
 root packet body {
 }")).
-Eval vm_compute in ("<<<M70>>>" ++ check (runes_of_ascii "packet pack { @lengthOf(
-Foo
-    // c
-    )
-    asx @lengthOf( _x ) /// triple
-, u8	x_y_z `two words` ,repeat
-    zchar[0
-    ] roots `
-`
-    // `tick` ""quote"" 'q'
-    , lengthOf @calculatedFrom( ""abc""
-) ,
-@tag( 3 ) @rightPad	( ' ')@calculatedFrom(
-""1""
-//x
-// " ++ [27880; 37322]%N ++ runes_of_ascii "
-)
-repeat uint64 i64_ // trailing space 
-`say ""hi""` // @lengthOf(
-,	@tag( 007 ) match roots as float {	""a	b""
-    : lengthOf,
-    [1, // @lengthOf(
-""\n""
-,
-""a\""b"" , ""\" ++ [233]%N ++ runes_of_ascii """ ,  ""1"",
-    42 ]: msg_type, """ ++ [128512]%N ++ runes_of_ascii """: Foo} ,T//x
-{
-    match
-Header
-as trueish
-{ [
-// `tick` ""quote"" 'q'
-// @lengthOf(
-0 , 3// @lengthOf(
-, ""{,}"" ,
-""1"" ,
-00  ,
-0123456789
-,
-    ""// no comment"" ]
-:As
-    , }
-    , } , repeat char[
-    10
+Eval vm_compute in ("<<<M1446>>>" ++ check (runes_of_ascii "// top
+    options 
+  // c0
+{ 	 // c1
+	uint8x 	 // c2a
+	// c2b
+	=
+    007  // c4a
+    // c4b
+; lengthOf
+    // c6
+  	=
+i8
+    ; 	 // c9a
+    // c9b
+
+} packet
+    i64_ 
+    // c12
+
+	{	// c13
+	  @calculatedFrom(	// c14
+	  ""1""
+	// c15
+) 	 // c16
+	@tag( // c17
+	3 
+) 
+// c19
+@lengthOf( 
+
+    // c20
+  rootA
+)	// c22
+    repeat  // c23
+    int8 // c24a
+	// c24b
+    	Packet  // c25a
+	// c25b
+  `u8 x,` 	 // c26
+
+,// c27
+  	} // c28a
+// c28b
+	root
+	    // c29
+  packet 	 // c30a
+
+  // c30b
+stringy
+
+// c31
+	  {	// c32a
+    // c32b
+@rightPad
+
+( ' '// c35
+		)// c36
+
+repeat	// c37a
+  // c37b
+	char[  // c38
+      10// c39
 ]
-o `
-`
-, @calculatedFrom(
-    //
-    ""`tick`"" //x
-) repeat crc {
-    repeatCount o ,
-    u8x
-As, } ,
-} packet pack{@calculatedFrom( """ ++ [233]%N ++ runes_of_ascii "t" ++ [233]%N ++ runes_of_ascii """ )  u32 f32a
-,
-}
-    MetaData float
-{u32 options1 , }
-packet
-f32a { }
+    repeatCount // c41a
+    	// c41b
+  ,// c42
+
+  @tag( // c43a
+    	// c43b
+  	255 
+      // c44
+	  ) // c45
+float64
+    // c46
+	  msg_type 
+  // c47
+@calculatedFrom( ""packet"" 
+
+    // c49
+    )// c50a
+	// c50b
+, // c51a
+    // c51b
+
+  }	// c52
+ 
 ")).
 Eval vm_compute in ("<<<M322>>>" ++ check (runes_of_ascii "packet leftPad { //
 i8 stringy @calculatedFrom( """ ++ [128512]%N ++ runes_of_ascii """	) , int@calculatedFrom(
@@ -402,387 +365,503 @@ calculatedFrom as calculatedFrom  {""a	b""
 : roots 42	: MetaDataX	,
 },
 }")).
-Eval vm_compute in ("<<<M354>>>" ++ check (runes_of_ascii "options {
-} packet u8x{ string uint8x@calculatedFrom(""{,}"" )	`crlf
-line`	,} MetaData falsey{
-    Logon packetx `tab	here` , } root packet o
-{ falsey@calculatedFrom(
-//x
-// " ++ [27880; 37322]%N ++ runes_of_ascii "
-""" ++ [28040; 24687]%N ++ runes_of_ascii """ ) ,	@tag(0123456789) // `tick` ""quote"" 'q'
-char[
-    // `tick` ""quote"" 'q'
-    0123456789
-]	u128@calculatedFrom(
-""{,}"" ) ,
-    @tag(
-    00)
-@lengthOf( stringy
-) @tag( 4294967296
-)  rootA Header,  @lengthOf(As
-    )
-    repeat leftPad `// not a comment`// c
-, i8 leftPad @calculatedFrom( """" ) , @tag( 10
-) zchar[ 007
-] packetx
-@lengthOf( // packet A { u8 x, }
-u8x )	`" ++ [28040; 24687; 31867; 22411]%N ++ runes_of_ascii "` ,
-}packet	options1 {
-//	t
-// trailing space 
-falsey// packet A { u8 x, }
-{ //	t
-zchar[ 3
-    ]// " ++ [128512]%N ++ runes_of_ascii " emoji
-roots
-//
-// a // b
-,
-    u32 Header // c
-,
-} ,// a // b
-}")).
-Eval vm_compute in ("<<<M1957>>>" ++ check (runes_of_ascii "options {
-    // c1a
-    // c1b
-    LittleEndian = true;
-    // c5
-    StringPrefixLenType = u64;
-    // c9
-    ArrayPrefixLenType = u16;// c13a
-    // c13b
-    FixedStringPadFromLeft = false;
-    FixedStringPadChar = ' ';
-    // c21
+Eval vm_compute in ("<<<M1362>>>" ++ check (runes_of_ascii "
+options { StringPrefixLenType =  u8;	ArrayPrefixLenType= 
+u32
+;
+
+FixedStringPadFromLeft=
+	true 
+; FixedStringPadChar
+    =
+
+' ' ; 
 }
+	packet Leg
+    {}
+packet Heartbeat
+    {
 
-packet Logon {
-    // c25
-    zchar[5] Side2,// c30
-}
+    zchar[
 
-root packet Logout {
-    // c35
-    repeat i64 Tail,// c39
-    Logon,// c41
-    repeat i16 OrderId,// c45
-    char[] venue,
-    uint64 x,
-    // c51
-    repeat i16 count,
-    u8 Flags,
-    match Flags as Body {
-        25 : Logon,
-        // c67a
-        // c67b
-    },// c69a
-    // c69b
-    u16 Qty @calculatedFrom(""CRC32""),// c75a
-    // c75b
-}
-// c76")).
-Eval vm_compute in ("<<<M305>>>" ++ check (runes_of_ascii "packet
-pack{ u8 x ,
-char[
-    255 ]trueish
-@calculatedFrom(
-""// no comment"" ) `tab	here`,	@lengthOf( asx) repeat //
-zchar[
-0
-] stringy `
-`, @leftPad( '0' ) @calculatedFrom( // trailing space 
-""abc"" )
-    @calculatedFrom( ""it's""
-) char[] packetx@calculatedFrom( ""a	b"" ) `doc` , repeat string len
-    `two words`
-, uint16 matchKey
-    @lengthOf(
-    asx ) ,zchar[ 0 ]
-x `it's` // trailing space 
-, }
-    packet packetx {body  , string trueish `" ++ [233]%N ++ runes_of_ascii "` , @tag(255 )
-@tag(
-3
-// packet A { u8 x, }
-//	t
-) @calculatedFrom(
-    ""\n"" ) repeat f64 roots// trailing space 
-`" ++ [233]%N ++ runes_of_ascii "`	, /// triple
-} 	 ")).
-Eval vm_compute in ("<<<M1367>>>" ++ check (runes_of_ascii "options {
-    StringPrefixLenType = u8;
-    ArrayPrefixLenType = u8;
-    FixedStringPadFromLeft = false;
-    FixedStringPadChar = ' ';
-}
-packet Ack {
-    char[] tag7,
-}
-packet Reject {
-    InSym61 {
-        repeat Ack,
-        zchar[4] f1,
-    },
-}
-packet Logout {
-    char[4] clOrdID,
-}
-root packet Cancel {
-    @leftPad(' ') char[10] price,
-    u8 x,
-    u32 venue @lengthOf(Body),
-    match x as Body {
-        [92, 175] : Logout,
-        26 : Reject,
-        144 : Ack,
-    },
-    u16 count @calculatedFrom(""CR\
-C32""),
-}
-")).
-Eval vm_compute in ("<<<M340>>>" ++ check (runes_of_ascii "packet leftPad//
-{@rightPad () repeat chars	{crc /// triple
-pack  ,
-} ,
-@calculatedFrom( """ ++ [28040; 24687]%N ++ runes_of_ascii """ )@lengthOf(options1  )@tag( 65535 ) Foo,match
-matchKey
-    as // " ++ [128512]%N ++ runes_of_ascii " emoji
-tag	{
-    // c
-    [ ""{,}"",
-""""
-, ""`tick`"" ,
-3 ,""it's"",  """ ++ [128512]%N ++ runes_of_ascii """	,
-""it's""] :As
-    , [
-/// triple
-//	t
-""x y""]
-    //x
-    :
-chars,""" ++ [233]%N ++ runes_of_ascii "t" ++ [233]%N ++ runes_of_ascii """	:uint8x,4294967296:	packetx
-""// no comment""
-:
-calculatedFrom , }
-,  @calculatedFrom( ""// no comment""// @lengthOf(
-)
-char[// trailing space 
-007 ]	f32a ,} // a // b")).
-Eval vm_compute in ("<<<M1444>>>" ++ check (runes_of_ascii "  options// " ++ [27880; 37322]%N ++ runes_of_ascii "
-
-  {
-
-T
-    =zchar[ 42 ]
-options1
-    = 
-uint8 ;
-lengthOf
-
-= 
-// a // b
-		char[ 4294967296 ]; } packet Z9_
-	{
-repeat MetaDataX
-	`crlf
-line`
-
-, 
-repeat string 
-x_y_z,  u32
-    x	,// `tick` ""quote"" 'q'
-
-  @tag(
-	// " ++ [128512]%N ++ runes_of_ascii " emoji
-	// " ++ [128512]%N ++ runes_of_ascii " emoji
-
-	00
-    ) repeat
-    i64  Logon	,  u8x
-f32a ,repeat	lengthOf 
-``,
-repeat stringy
-
-Pad
-        // @lengthOf(
-    `
-`	,  repeat
-string_
-    chars `// not a comment` , }
-")).
-Eval vm_compute in ("<<<M76>>>" ++ check (runes_of_ascii "packet rootA { repeat uint16 stringy `" ++ [233]%N ++ runes_of_ascii "`
-,body
-@lengthOf( stringy ) , int32 matchKey // " ++ [27880; 37322]%N ++ runes_of_ascii "
-,
-    @lengthOf(roots)@calculatedFrom( ""a\""b""
-) @leftPad(' ') i64
-    leftPad
-@lengthOf( repeatCount )
-`u8 x,` , //	t
-f64 len
-    @lengthOf( BodyLength// trailing space 
-) `// not a comment` , @rightPad
-(
-)
-    @leftPad ( '0')repeat
-string len
-, // c
-char[] chars `two words`	, } //	t")).
-Eval vm_compute in ("<<<M77>>>" ++ check (runes_of_ascii "
-packet	float { char[ 42] int`say ""hi""` , @tag( 255// packet A { u8 x, }
-) match// a // b
-stringy  as
-    x { [ 00 ,42
-]: i64_ 42 : matchKey , [ ""1"" , 1
-, 42
+    6]msgKind
     ,
-""" ++ [28040; 24687]%N ++ runes_of_ascii """ , ""abc"" ,
-// a // b
-//x
-1 // trailing space 
-]
-: //
-roots
+    @rightPad
+('0')
+char[3
+] Qty
+, zchar[9 ] Side2,
+	i8
+
+    Acct
+, } 
+packet Logout{int8	x,
+
+} 
+packet
+Order{
+
+char[]
+
+    Acct  ,
+zchar[
+8 ]
+	count ,
+
+    u32
+OrderId 
+,uint8 
+lastPx	,  u16
+clOrdID ,	zchar[ 
+7]
+    Note	,
+    }
+    root packet Reject {
+@leftPad(
+' '
+) char[ 8 ]Side2,
+
+i8 
+clOrdID , repeat
+	f32
+
+x
 ,
-    65535
-: trueish ,	} ,@calculatedFrom( ""{,}"" )body @calculatedFrom(""" ++ [28040; 24687]%N ++ runes_of_ascii """ ) , zchar[
-    007 ] lengthOf, }
+u32
+	lastPx,
+match
+lastPx as Body {
+    [30
+	, 147] : Heartbeat
+
+    ,	134 :
+Leg	, 183	:
+
+    Logout ,
+40
+	: Order,}, 
+u16	Ref 
+@calculatedFrom(
+	""CRC32"" ), }
 ")).
-Eval vm_compute in ("<<<M1880>>>" ++ check (runes_of_ascii "packet A {
+Eval vm_compute in ("<<<M1798>>>" ++ check (runes_of_ascii "packet stringy {
+    repeat T {
+        u64 lengthOf `tab	here`,
+        repeat _x {
+            match calculatedFrom as Header {
+                [""" ++ [233]%N ++ runes_of_ascii "t" ++ [233]%N ++ runes_of_ascii """] : _x,
+                // @lengthOf(
+                [""packet""] : MetaDataX,
+                255 : u128,
+                42 : A,
+                ""// no comment"" : body,
+            },
+            repeat crc Foo,
+            charz,
+        },
+        zchar[1] i8i8 @calculatedFrom(""x y""),
+        uint8x Pad `line1
+                line2`,
+    },
+    @lengthOf(u)
+    char[4294967296] crc,
+    @tag(007)
+    repeatCount,
+    repeat char[] Header,
+    @rightPad()
+    char[] string_ `a\`,
+}")).
+Eval vm_compute in ("<<<M1724>>>" ++ check (runes_of_ascii "  packet
+    Header
+
+{	char[
+
+    10
+	]
+
+    A `it's` , @calculatedFrom( 
+""" ++ [28040; 24687]%N ++ runes_of_ascii """ 
+)
+    calculatedFrom	// a // b
+      @lengthOf(
+	zchar )	`tab	here`
+
+    , u32 BodyLength  ,
+
+    @lengthOf(
+stringy )//
+@rightPad (
+
+    ' '
+) @tag(0123456789
+
+    )  body{ match	i8i8 as Foo	{  [7,
+""CRC32"" ] :
+	options1
+    ,[
+""a\""b""
+,
+
+    """ ++ [128512]%N ++ runes_of_ascii """
+	,
+
+""it's"" ,
+    ""a	b"",
+	""// no comment""
+	,
+    ""it's""
+
+    , 7
+
+,
+""abc"" ]
+    :
+As ,
+
+1 :
+
+    _x 
+    // " ++ [128512]%N ++ runes_of_ascii " emoji
+//
+  }, repeat
+
+    uint8x  {  crc 
+@calculatedFrom( ""a\\""  )
+,
+
+}  , repeat
+
+    i8
+tag ,// " ++ [128512]%N ++ runes_of_ascii " emoji
+	} ,
+}
+")).
+Eval vm_compute in ("<<<M1521>>>" ++ check (runes_of_ascii "
+options
+    {
+    ArrayPrefixLenType=u64 ; FixedStringPadFromLeft=	true
+;
+FixedStringPadChar =
+
+'0'
+;
+    }
+
+    packet
+
+    Quote{
+
+} packet
+
+Ack 
+{
+    repeat
+InNote66
+{
+u8 pad0 
+,
+
+    } , 
+}
+
+    packet 
+Reject
+{
+
+}
+
+root packet
+
+Order
+	{Quote ,
+
+repeat
+	Reject
+	,  string 
+venue
+, string	seqNo
+
+    , uint32 Ref ,  u16
+    lastPx
+
+,
+	u32
+clOrdID
+    @lengthOf(
+    Body  ) ,
+
+match
+lastPx as  Body
+{
+
+    190
+	: Reject,  186:  Quote , 22 :	Ack ,
+} , u16 Flags
+	@calculatedFrom(  ""CRC32""
+
+)  , }
+
+")).
+Eval vm_compute in ("<<<M1412>>>" ++ check (runes_of_ascii "// top
+packet Logon {
+    // c2a
+    // c2b
+    string user,// c5a
+    // c5b
+}// c6a
+
+// c6b
+root packet Frame {
+    // c10
+    u8 K,
+    // c13
+    match K as Body {
+        // c18
+        1 : Logon,
+        // c22a
+        // c22b
+        2 : Logout,
+        // c26
+    },// c28a
+    // c28b
+    Tail,// c30a
+    // c30b
+}// c31a
+
+// c31b
+packet Logout {
+    // c34a
+    // c34b
+    u16 reason,
+}
+
+// c38
+packet Tail {
+    // c41
+    u32 crc,// c44
+}// c45a
+// c45b")).
+Eval vm_compute in ("<<<M68>>>" ++ check (runes_of_ascii "
+packet
+    Header {  match roots  as packetx
+// " ++ [27880; 37322]%N ++ runes_of_ascii "
+//	t
+{
+    // `tick` ""quote"" 'q'
+    [
+""" ++ [28040; 24687]%N ++ runes_of_ascii """ ,
+    0123456789 ]:packetx,
+//
+// c
+4294967296
+    : Logon ,	[ ""\n""
+    ,""x y"" , // " ++ [128512]%N ++ runes_of_ascii " emoji
+""packet"" , ""packet"" ] : i8i8 , 42 // `tick` ""quote"" 'q'
+:Foo
+    ,
+}, //	t
+@calculatedFrom( ""x y""	) f64 Logon ,} options
+    {
+    // " ++ [128512]%N ++ runes_of_ascii " emoji
+    chars=
+' '
+    ; repeatCount =
+""" ++ [233]%N ++ runes_of_ascii "t" ++ [233]%N ++ runes_of_ascii """ x	= ""\n"" ; calculatedFrom = ""`tick`"" //x
+; }
+")).
+Eval vm_compute in ("<<<M1262>>>" ++ check (runes_of_ascii "// top
+packet // c0
+B // c1
+{
+    // c2
+u8
+    // c3
+a , } root packet // c8a
+  // c8b
+P // c9a
+  // c9b
+{
+    // c10
+u8 // c11
+K , // c13
+u64 // c14a
+  // c14b
+L @lengthOf( // c16a
+  // c16b
+Body
+    // c17
+) , match // c20a
+  // c20b
+K as // c22a
+  // c22b
+Body // c23
+{ // c24a
+  // c24b
+1 : // c26a
+  // c26b
+B // c27a
+  // c27b
+,
+    // c28
+} // c29
+, // c30
+}
+    // c31
+")).
+Eval vm_compute in ("<<<M127>>>" ++ check (runes_of_ascii "packet a1{ @leftPad ( ) float
+@lengthOf(
+uint8x ) , }
+packet Logon {
+char Logon
+@calculatedFrom( ""a\\"" )
+    ,T stringy ,
+//
+// c
+repeat uint8 stringy `two words` , } MetaData charz{ u
+    tag
+    `
+`
+, a1 falsey ,//x
+Z9_
+matchKey , f64 lengthOf	`a\` // @lengthOf(
+,
+    f32a roots
+    ``
+,float64
+    x_y_z // @lengthOf(
+, }
+")).
+Eval vm_compute in ("<<<M370>>>" ++ check (runes_of_ascii "  root packet trueish // " ++ [128512]%N ++ runes_of_ascii " emoji
+{ char[] MetaDataX , @leftPad (
+    // trailing space 
+    '0' )match float as
+//x
+// trailing space 
+crc { 0123456789 :// " ++ [27880; 37322]%N ++ runes_of_ascii "
+chars	, ""{,}"" : i8i8,
+}
+, f32a
+    // " ++ [128512]%N ++ runes_of_ascii " emoji
+    f32a `tab	here` ,// " ++ [128512]%N ++ runes_of_ascii " emoji
+@lengthOf( Foo )
+    Packet@calculatedFrom( """ ++ [28040; 24687]%N ++ runes_of_ascii """ ) `it's` , }
+")).
+Eval vm_compute in ("<<<M1865>>>" ++ check (runes_of_ascii "packet P1 {
     u8 a,
 }
 
-packet B {
-    u16 b,
+packet P2 {
+    P1,
 }
 
-packet C {
-    u32 c,
+packet P3 {
+    P2,
+    P1,
 }
 
-root packet M {
-    u16 Kc,
-    u16 Kb,
-    u16 Ka,
-    match Kc as X {
-        9 : A,
-        10 : B,
+packet P4 {
+    repeat P3,
+    P2,
+}
+
+root packet P5 {
+    P4,
+    P3,
+    P1,
+    u8 K,
+    match K as Body {
+        4 : P4,
+        3 : P3,
+        2 : P2,
+        1 : P1,
     },
-    match Kb as Y {
-        2 : C,
-        1 : A,
-    },
-    match Ka as Z {
-        1 : B,
-    },
-    A,
-    B,
-    C,
 }")).
-Eval vm_compute in ("<<<M1514>>>" ++ check (runes_of_ascii "packet FooBar // c1
-		{
-	u8
-
-    a
-, 
-    // c5
-    }	// c6
-  packet
-    foo_bar 	 // c8a
-  	// c8b
-  {
-
-// c9
-u16
-        // c10
-
-b
-
-,  // c12a
-  // c12b
-    }  // c13
-
-root// c14
-      packet R {  // c17a
-	  // c17b
-
-FooBar ,  
-  // c19
-
-	foo_bar 	 // c20
-	,  }")).
-Eval vm_compute in ("<<<M234>>>" ++ check (runes_of_ascii "//	t
-options{
-    chars=true As= char[]
-// trailing space 
-// " ++ [128512]%N ++ runes_of_ascii " emoji
-; /// triple
-x_y_z	= 7; // " ++ [27880; 37322]%N ++ runes_of_ascii "
-i8i8 = true packetx = /// triple
-' ' } root packet	x_y_z {repeat
-    char[
-    42
-    //x
-    ] //	t
-Pad,
+Eval vm_compute in ("<<<M203>>>" ++ check (runes_of_ascii "root packet Pad {match //	t
+falsey as
+    A{
+255:// `tick` ""quote"" 'q'
+T, } , int64
+Header	`tab	here`
+, repeat i64_ `line1
+line2`, @tag( 7 )
+    float32	zchar
+    @calculatedFrom( ""\" ++ [233]%N ++ runes_of_ascii """
+    )
+//
+// @lengthOf(
+,u64 Header ,
     }
-// packet A { u8 x, }
 ")).
-Eval vm_compute in ("<<<M1303>>>" ++ check (runes_of_ascii "// top
-packet
-    // c0
-order_item // c1
-{ u8 // c3
-a // c4a
-  // c4b
-, // c5
-} root // c7
-packet
-    // c8
-new_order
-    // c9
-{ // c10
-order_item
-    // c11
-,
-    // c12
-u8 // c13a
-  // c13b
-x ,
-    // c15
-} ")).
-Eval vm_compute in ("<<<M186>>>" ++ check (runes_of_ascii "root packet packetx	{	char[ 1 ]chars @calculatedFrom(
-""packet"" ) `say ""hi""` ,} options
-    // trailing space 
-    { asx
-    // a // b
-    = 65535 u = float64 repeatCount  =""\" ++ [233]%N ++ runes_of_ascii """}
-")).
-Eval vm_compute in ("<<<M1790>>>" ++ check (runes_of_ascii "MetaData
-    leftPad{
-
-    chars 
-MetaDataX
-,  }
-
+Eval vm_compute in ("<<<M1769>>>" ++ check (runes_of_ascii "
 packet
 
-    repeatCount  {	char[	// c
+    repeatCount{  trueish ,  }packet  uint8x
+    { 	 /// triple
+    match
+u8x 
+as 
+calculatedFrom  {
+    [
+4294967296
+]
 
-255
-	]uint8x
-`" ++ [233]%N ++ runes_of_ascii "`
-	,} 
-MetaData 
-pack
+:len
 
-{
+, [""" ++ [128512]%N ++ runes_of_ascii """ 
+,""" ++ [233]%N ++ runes_of_ascii "t" ++ [233]%N ++ runes_of_ascii """
+,	255
+,//
 
-    As
-    Foo
-    , }
+  1 ] : falsey,
+    }
+
+    ,
+	}
 ")).
-Eval vm_compute in ("<<<M521>>>" ++ check (runes_of_ascii "packet uint8x
+Eval vm_compute in ("<<<M1885>>>" ++ check (runes_of_ascii "packet
+    A
+
+    { 
+Inner{	match  k
+as
+
+    n
+	{
+    [
+1
+
+,  22 ,007
+
+    ,
+
+    4,5  ,  66	,
+
+    7
+, 8,
+	9
+
+    , 10
+,	11
+,12 ]
+
+    :
+B
+    ,},
+}
+	,
+}
+
+")).
+Eval vm_compute in ("<<<M224>>>" ++ check (runes_of_ascii "root packet
+T
+{ zchar[ // a // b
+0123456789
+] // c
+uint8x , }  root packet metadata { @rightPad( )  x_y_z @lengthOf( stringy )
+// `tick` ""quote"" 'q'
+// c
+, }")).
+Eval vm_compute in ("<<<M508>>>" ++ check (runes_of_ascii "packet uint8x
 { match pack
     as msg_type	{
     0123456789 :	float
@@ -791,11 +870,44 @@ Eval vm_compute in ("<<<M521>>>" ++ check (runes_of_ascii "packet uint8x
 } packet //	t
 a1
     { } options {packetx
-    = '\x00'	; u128= ""a	b"" ""a	b""  ; }
+    = '\x00'	int16 u128= ""a	b""  ; }
 ")).
-Eval vm_compute in ("<<<M426>>>" ++ check (runes_of_ascii "packet uint8x
+Eval vm_compute in ("<<<M516>>>" ++ check (runes_of_ascii "packet uint8x
 { match pack
-    as msg_type	{ {
+    as msg_type	{
+    0123456789 :	float
+}
+,
+} packet //	t
+a1
+    { } options {packetx
+    = '\x00'	; u128= = ""a	b""  ; }
+")).
+Eval vm_compute in ("<<<M427>>>" ++ check (runes_of_ascii "packet uint8x
+{ match pack
+    as msg_type	0123456789
+    { :	float
+}
+,
+} packet //	t
+a1
+    { } options {packetx
+    = '\x00'	; u128= ""a	b""  ; }
+")).
+Eval vm_compute in ("<<<M445>>>" ++ check (runes_of_ascii "packet uint8x
+{ match pack
+    as msg_type	{
+    0123456789 :	float
+
+,
+} packet //	t
+a1
+    { } options {packetx
+    = '\x00'	; u128= ""a	b""  ; }
+")).
+Eval vm_compute in ("<<<M410>>>" ++ check (runes_of_ascii "packet uint8x
+{ match 
+    as msg_type	{
     0123456789 :	float
 }
 ,
@@ -804,292 +916,235 @@ a1
     { } options {packetx
     = '\x00'	; u128= ""a	b""  ; }
 ")).
-Eval vm_compute in ("<<<M1299>>>" ++ check (runes_of_ascii "packet A {
-    u8 a,
-}
-packet B {
-    u16 b,
-}
-root packet P {
-    u8 K,
-    match K as M {
-        [1, 2] : A,
-        3 : B,
-        7 : A,
-    },
-}
-")).
-Eval vm_compute in ("<<<M517>>>" ++ check (runes_of_ascii "packet uint8x
-{ match pack
-    as msg_type	{
-    0123456789 :	float
-}
-,
-} packet //	t
-a1
-    { } options {packetx
-    = '\x00'	; u128""a	b"" =  ; }
-")).
-Eval vm_compute in ("<<<M666>>>" ++ check (runes_of_ascii "// @lengthOf(
-packet i8i8 { u128 u128 o , }
+Eval vm_compute in ("<<<M660>>>" ++ check (runes_of_ascii "/""/ @lengthOf(
+packet i8i8 { u128 o , }
 options { MetaDataX = true;
     BodyLength =""packet"" x_y_z= 007
 crc //x
 = ""abc"" ;
     msg_type =
 i16 }")).
-Eval vm_compute in ("<<<M695>>>" ++ check (runes_of_ascii "// @lengthOf(
+Eval vm_compute in ("<<<M692>>>" ++ check (runes_of_ascii "// @lengthOf(
 packet i8i8 { u128 o , }
 options { MetaDataX = true;
-    BodyLe@xngth =""packet"" x_y_z= 007
-crc //x
+    BodyLength =""packet"" x_y_z= 007
+u8 //x
 = ""abc"" ;
     msg_type =
 i16 }")).
-Eval vm_compute in ("<<<M720>>>" ++ check (runes_of_ascii "// @lengthOf(
-packet i8i8 { u128 o , }
-options { MetaDataX = true;
-    BodyLength =""packet"" =x_y_z 007
-crc //x
-= ""abc"" ;
-    msg_type =
-i16 }")).
-Eval vm_compute in ("<<<M1263>>>" ++ check (runes_of_ascii "
-packet B {u8 
-a ,
-}  root	packet P
+Eval vm_compute in ("<<<M1587>>>" ++ check (runes_of_ascii "packet A {
+    Inner {
+        u8 x `
+                `,
+        Deep {
+            u8 y `
+                        `,
+        },
+    },
+}")).
+Eval vm_compute in ("<<<M1405>>>" ++ check (runes_of_ascii "packet A
 {
 
-    u8
-K, 
-u64	L
-@lengthOf(
+match
+k
 
-Body
-)	, match
-    K
 as
-
-    Body
-{ 1
-
-    : 
-B
+n	{  [ ""a""
 
 ,
-}	, }
 
-")).
-Eval vm_compute in ("<<<M1266>>>" ++ check (runes_of_ascii "  packet B
-    {
-u8 a
+""bb"" , 007 , ""d""
+
+    ,
+""e"",  66
+
+, 
+""g""
+	, ""h""
+    ,9
 	,
-    } 
-root  packet
 
-P {
-u8
-    K  ,
-	match
-    K as Body
+""j""]
+    : B,
 
-{
-1
-
-:  B,
-}  ,
-	u16	L@lengthOf(	Body
-
-) ,
-	}
-")).
-Eval vm_compute in ("<<<M223>>>" ++ check (runes_of_ascii "packet  u { repeat
-    // " ++ [128512]%N ++ runes_of_ascii " emoji
-    A , @lengthOf( lengthOf
-)
-    repeat
-    i64
-i64_
-, //
-zchar[
-3// a // b
-] body , }
-")).
-Eval vm_compute in ("<<<M1146>>>" ++ check (runes_of_ascii "MetaData leftPad
-// c
-{ chars MetaDataX , } packet repeatCount { char[ 255 ] uint8x `" ++ [233]%N ++ runes_of_ascii "` , } MetaData pack { As Foo , }")).
-Eval vm_compute in ("<<<M1178>>>" ++ check (runes_of_ascii "MetaData leftPad { chars MetaDataX , } packet repeatCount { char[ 255 ] uint8x `" ++ [233]%N ++ runes_of_ascii "` , } MetaData
-// c
-pack { As Foo , }")).
-Eval vm_compute in ("<<<M1841>>>" ++ check (runes_of_ascii "MetaData Packet {
-    u lengthOf `say ""hi""`,
+2
+	:  C 
+},	} ")).
+Eval vm_compute in ("<<<M1264>>>" ++ check (runes_of_ascii "packet B {
+    u8 a,
 }
-
-MetaData metadata {
-    crc chars `crlf
-    line`,
-    asx f32a,
-}")).
-Eval vm_compute in ("<<<M901>>>" ++ check (runes_of_ascii "packet A {
+root packet P {
+    u8 K,
+    match K as Body {
+        1 : B,
+    },
+    u16 L @lengthOf(Body),
+}
+")).
+Eval vm_compute in ("<<<M1152>>>" ++ check (runes_of_ascii "MetaData leftPad { chars MetaDataX
+// c
+, } packet repeatCount { char[ 255 ] uint8x `" ++ [233]%N ++ runes_of_ascii "` , } MetaData pack { As Foo , }")).
+Eval vm_compute in ("<<<M1184>>>" ++ check (runes_of_ascii "MetaData leftPad { chars MetaDataX , } packet repeatCount { char[ 255 ] uint8x `" ++ [233]%N ++ runes_of_ascii "` , } MetaData pack { As
+// c
+Foo , }")).
+Eval vm_compute in ("<<<M894>>>" ++ check (runes_of_ascii "packet A {
   match k as n {
-    [""a"", ""bb"", 007, ""d"", ""e"", 66, ""g"", ""h"", 9, ""j"", ""k""] : B,
+    [""a"", ""bb"", ""c c"", ""d"", ""e"", ""f"", ""g"", ""h"", ""i"", ""j"", ""k""] : B
     2 : C
   },
 }")).
-Eval vm_compute in ("<<<M867>>>" ++ check (runes_of_ascii "packet A {
-  match k as n {
-    [""a"", ""bb"", ""c c"", ""d"", ""e"", ""f"", ""g"", ""h"", ""i""] : B,
-    2 : C
-  },
-}")).
-Eval vm_compute in ("<<<M479>>>" ++ check (runes_of_ascii "packet uint8x
-{ match pack
-    as msg_type	{
-    0123456789 :	float
+Eval vm_compute in ("<<<M1279>>>" ++ check (runes_of_ascii "options {
+    LittleEndian = true;
 }
-,
-} packet //	t
-a1
-    {")).
-Eval vm_compute in ("<<<M119>>>" ++ check (runes_of_ascii "packet u{ @tag(10 // a // b
-) tag  @lengthOf( A
-// " ++ [128512]%N ++ runes_of_ascii " emoji
-// a // b
-) , repeat options1 ,  }")).
-Eval vm_compute in ("<<<M629>>>" ++ check (runes_of_ascii "
+root packet P {
+    u16 a,
+    u32 Sum @calculatedFrom(""CR\
+C32""),
+}
+")).
+Eval vm_compute in ("<<<M1718>>>" ++ check (runes_of_ascii "packet _x {
+}// trailing space 
+
+options {
+    repeatCount = 42;
+    Pad = true;
+    x_y_z = 65535;
+}")).
+Eval vm_compute in ("<<<M590>>>" ++ check (runes_of_ascii "
 packet
     asx {match u128 as lengthOf
+MetaData
+//	t
+// `tick` ""quote"" 'q'
+255 : x ,
+    } ,	}")).
+Eval vm_compute in ("<<<M891>>>" ++ check (runes_of_ascii "packet A {
+  match k as n {
+    [1, 22, 007, 4, 5, 66, 7, 8, 9, 10, 11] : B,
+    2 : C
+  },
+}")).
+Eval vm_compute in ("<<<M559>>>" ++ check (runes_of_ascii "
+packet
+    { asx match u128 as lengthOf
 {
 //	t
 // `tick` ""quote"" 'q'
 255 : x ,
-    } ~ ,	}")).
-Eval vm_compute in ("<<<M599>>>" ++ check (runes_of_ascii "
-packet
-    asx {match u128 as lengthOf
-{
-//	t
-// `tick` ""quote"" 'q'
-255 x : ,
     } ,	}")).
-Eval vm_compute in ("<<<M1307>>>" ++ check (runes_of_ascii "  packet
-orderItem 
-{
-	u8
-    a
-    , 
-}root
-packet
-newOrder{ orderItem	, 
-u8
-x
-	,
-}")).
-Eval vm_compute in ("<<<M1845>>>" ++ check (runes_of_ascii "
-packet
-
-    A {@leftPad 
-(
-)
-char[
-4 ]x
-    ,  @rightPad 
-( )zchar[
-2 ]	y ,
-	} ")).
-Eval vm_compute in ("<<<M839>>>" ++ check (runes_of_ascii "packet A {
+Eval vm_compute in ("<<<M874>>>" ++ check (runes_of_ascii "packet A {
   match k as n {
-    [1, 22, 007, 4, 5, 66, 7] : B,
+    [1, 22, ""c c"", 4, 5, ""f"", 7, 8, ""i""] : B
     2 : C
   },
 }")).
-Eval vm_compute in ("<<<M810>>>" ++ check (runes_of_ascii "packet A {
-  match k as n {
-    [""a"", ""bb"", 007, ""d""] : B,
-    2 : C
-  },
-}")).
-Eval vm_compute in ("<<<M814>>>" ++ check (runes_of_ascii "packet A {
-  match k as n {
-    [1, 22, 007, 4, 5] : B
-    2 : C
-  },
-}")).
-Eval vm_compute in ("<<<M1756>>>" ++ check (runes_of_ascii "  packet
-    body
+Eval vm_compute in ("<<<M1289>>>" ++ check (runes_of_ascii "
+root
 
-{ // c
-	  i32 f32a
+    packet
 
-`{ , }`
-	,  }  options
-
-{} ")).
-Eval vm_compute in ("<<<M88>>>" ++ check (runes_of_ascii "options// @lengthOf(
-{a1 = 65535
-// `tick` ""quote"" 'q'
-// c
-}")).
-Eval vm_compute in ("<<<M1622>>>" ++ check (runes_of_ascii "
-
-  MetaData 
-lengthOf	{Header
-
-    o`doc`  ,
+P
+{repeat	string
+    ss
+    ,  repeat
+    u16
+ns
+    ,
 
     }
 ")).
-Eval vm_compute in ("<<<M1219>>>" ++ check (runes_of_ascii "packet body { i32 f32a `{ , }` , } options { } // c
-")).
-Eval vm_compute in ("<<<M1085>>>" ++ check (runes_of_ascii "packet A { B { // a
- u8 x, // b
- } // c
- , // d
- }")).
-Eval vm_compute in ("<<<M434>>>" ++ check (runes_of_ascii "packet uint8x
-{ match pack
-    as msg_type	{")).
-Eval vm_compute in ("<<<M1806>>>" ++ check (runes_of_ascii "  root	packet
-
-A{
-
-    u8
-x 
-`
-x`	,
-} ")).
-Eval vm_compute in ("<<<M1399>>>" ++ check (runes_of_ascii "packet
-
-    x
-{
-} 
-    // c
- 
-")).
-Eval vm_compute in ("<<<M1830>>>" ++ check (runes_of_ascii "packet A {
-    u8 x `d" ++ [8202]%N ++ runes_of_ascii "`,// c" ++ [8202]%N ++ runes_of_ascii "
+Eval vm_compute in ("<<<M1560>>>" ++ check (runes_of_ascii "packet A {
+    match k as n {
+        [""a"", ""bb"", 007] : B,
+        2 : C,
+    },
 }")).
-Eval vm_compute in ("<<<M1076>>>" ++ check (runes_of_ascii "MetaData M {
-}// c
-packet A {}")).
-Eval vm_compute in ("<<<M1926>>>" ++ check (runes_of_ascii "packet
-A
-    { }
-	// c" ++ [8192]%N ++ runes_of_ascii "
+Eval vm_compute in ("<<<M819>>>" ++ check (runes_of_ascii "packet A {
+  match k as n {
+    [""a"", 22, ""c c"", 4, ""e""] : B,
+    2 : C
+  },
+}")).
+Eval vm_compute in ("<<<M821>>>" ++ check (runes_of_ascii "packet A {
+  match k as n {
+    [1, 22, ""c c"", 4, 5] : B,
+    2 : C
+  },
+}")).
+Eval vm_compute in ("<<<M793>>>" ++ check (runes_of_ascii "packet A {
+  match k as n {
+    [""a"", 22, ""c c""] : B,
+    2 : C
+  },
+}")).
+Eval vm_compute in ("<<<M1290>>>" ++ check (runes_of_ascii "root packet P {
+    u8 s_u8,
+    repeat u8 r_u8,
+    u16 b_len,
+}
 ")).
-Eval vm_compute in ("<<<M295>>>" ++ check (runes_of_ascii "root  packet
-u128 { }")).
-Eval vm_compute in ("<<<M170>>>" ++ check (runes_of_ascii "packet pack
+Eval vm_compute in ("<<<M825>>>" ++ check (runes_of_ascii "packet A { Inner { match k as n { [1,22,007,4,5] : B, }, }, }")).
+Eval vm_compute in ("<<<M1088>>>" ++ check (runes_of_ascii "packet A { @tag(1) // a
+ @leftPad('0') // b
+ char[4] x, }")).
+Eval vm_compute in ("<<<M963>>>" ++ check (runes_of_ascii "MetaData M {
+    u8 x `tab
+	x`,
+    T t `tab
+	x`,
+}")).
+Eval vm_compute in ("<<<M1708>>>" ++ check (runes_of_ascii "
+
+  packet
+
+A
+    { u8 
+x
+
+`d" ++ [12]%N ++ runes_of_ascii "`
+    , 	 // c" ++ [12]%N ++ runes_of_ascii "
+  	}")).
+Eval vm_compute in ("<<<M1658>>>" ++ check (runes_of_ascii "
+MetaData	M { 
+}	// c
+	MetaData 
+N 
 {
-} 	 ")).
-Eval vm_compute in ("<<<M1002>>>" ++ check (runes_of_ascii "// c" ++ [8192]%N ++ runes_of_ascii "
+
+}// d")).
+Eval vm_compute in ("<<<M1240>>>" ++ check (runes_of_ascii "root packet P {
+    char c,
+    u8 x,
+}
+")).
+Eval vm_compute in ("<<<M1408>>>" ++ check (runes_of_ascii "
+options
+
+    { 	 // a // b
+  }
+")).
+Eval vm_compute in ("<<<M753>>>" ++ check (runes_of_ascii ":l" ++ [65533; 23]%N ++ runes_of_ascii "9" ++ [65533; 1549]%N ++ runes_of_ascii "F" ++ [65533; 65533; 65533; 65533]%N ++ runes_of_ascii "j)" ++ [65533; 65533; 27; 25; 65533; 65533; 261; 14; 65533]%N ++ runes_of_ascii "V" ++ [65533; 65533]%N ++ runes_of_ascii "4b-" ++ [65533; 65533]%N)).
+Eval vm_compute in ("<<<M1703>>>" ++ check (runes_of_ascii "
+
+  packet 
+A
+{ }
+    // c x")).
+Eval vm_compute in ("<<<M713>>>" ++ check (runes_of_ascii "// @lengthOf(
+packet i8i8")).
+Eval vm_compute in ("<<<M1064>>>" ++ check (runes_of_ascii "packet A {
+}// a// b")).
+Eval vm_compute in ("<<<M1062>>>" ++ check (runes_of_ascii "// c x
 packet A {
 }")).
-Eval vm_compute in ("<<<M729>>>" ++ check (runes_of_ascii "// only a comment")).
-Eval vm_compute in ("<<<M1438>>>" ++ check (runes_of_ascii "packet Logon{	}
+Eval vm_compute in ("<<<M1016>>>" ++ check (runes_of_ascii "packet A {
+}
+// c" ++ [8233]%N)).
+Eval vm_compute in ("<<<M989>>>" ++ check (runes_of_ascii "packet A {
+}// c" ++ [133]%N)).
+Eval vm_compute in ("<<<M1909>>>" ++ check (runes_of_ascii "packet zchar {
+}")).
+Eval vm_compute in ("<<<M1870>>>" ++ check (runes_of_ascii "// " ++ [128512]%N ++ runes_of_ascii " emoji")).
+Eval vm_compute in ("<<<M293>>>" ++ check (runes_of_ascii "  
+
 ")).
-Eval vm_compute in ("<<<M1505>>>" ++ check (runes_of_ascii "
-// c" ++ [8192]%N ++ runes_of_ascii "
-")).
-Eval vm_compute in ("<<<M726>>>" ++ check (runes_of_ascii "
-	 ")).
